@@ -24,6 +24,8 @@ struct Arena
 	uintptr_t cursor = kBase;
 	uintptr_t hiTouched = kBase;
 	std::map<uintptr_t, size_t> live;                       // manager blocks currently owned by pools
+	std::map<uintptr_t, int> owner;                         // which manager (identity) allocated the block
+	std::set<size_t> failAt; size_t nAttempt = 0, nRefused = 0; // the k-th Allocate request of the case throws std::bad_alloc
 	std::vector<uintptr_t> order;                           // every Allocate in order (buffer ids = index+1)
 	std::vector<ull> residues; size_t resPos = 0; ull period = 1;
 	bool exact = false; uintptr_t exactAddr = 0;            // next Allocate returns exactly this address
@@ -40,11 +42,13 @@ struct Arena
 		if (hiTouched > kBase + (size_t(1) << 28))          // give the pages back now and then
 		{ madvise(reinterpret_cast<void*>(kBase), hiTouched - kBase, MADV_DONTNEED); hiTouched = kBase; }
 		cursor = kBase; live.clear(); order.clear(); residues.clear(); resPos = 0; period = 16; gran = 16; exact = false;
-		nAlloc = nDealloc = 0; error.clear();
+		nAlloc = nDealloc = 0; error.clear(); owner.clear(); failAt.clear(); nAttempt = nRefused = 0;
 	}
 	void fail(const std::string& s) { if (error.empty()) error = s; }
-	void* allocate(size_t size)
+	void* allocate(size_t size, int id = 0)
 	{
+		++nAttempt;
+		if (failAt.count(nAttempt)) { ++nRefused; throw std::bad_alloc(); }
 		uintptr_t a;
 		if (exact) { a = exactAddr; exact = false; }
 		else
@@ -57,14 +61,15 @@ struct Arena
 			if (a < kv.first + kv.second && kv.first < a + size) { fail("harness: placement overlaps a live block"); break; }
 		cursor = std::max(cursor, a + size + 64);
 		hiTouched = std::max(hiTouched, cursor);
-		live[a] = size; order.push_back(a); ++nAlloc; lastAllocSize = size; lastAlloc = a;
+		live[a] = size; owner[a] = id; order.push_back(a); ++nAlloc; lastAllocSize = size; lastAlloc = a;
 		memset(reinterpret_cast<void*>(a), 0xA5, size);
 		return reinterpret_cast<void*>(a);
 	}
-	void deallocate(void* ptr, size_t size)
+	void deallocate(void* ptr, size_t size, int id = 0)
 	{
 		uintptr_t a = reinterpret_cast<uintptr_t>(ptr);
 		auto it = live.find(a);
+		if (it != live.end() && owner[a] != id) fail("Deallocate through a memory manager other than the one that allocated the block");
 		if (it == live.end()) { fail("Deallocate of an address that is not a live manager block"); return; }
 		if (it->second != size) { fail("Deallocate with size " + std::to_string(size) + " != allocated " + std::to_string(it->second)); }
 		memset(ptr, 0xDD, it->second);
@@ -93,14 +98,15 @@ static Arena gA;
 class PlaceMM
 {
 public:
-	explicit PlaceMM() noexcept {}
-	PlaceMM(PlaceMM&&) noexcept {}
-	PlaceMM(const PlaceMM&) noexcept {}
+	explicit PlaceMM(int id_ = 0) noexcept : id(id_) {}
+	PlaceMM(PlaceMM&& o) noexcept : id(o.id) {}
+	PlaceMM(const PlaceMM& o) noexcept : id(o.id) {}
 	~PlaceMM() noexcept {}
 	PlaceMM& operator=(const PlaceMM&) = delete;
-	void* Allocate(size_t size) { return gA.allocate(size); }
-	void Deallocate(void* ptr, size_t size) noexcept { gA.deallocate(ptr, size); }
-	bool IsEqual(const PlaceMM&) const noexcept { return true; }
+	void* Allocate(size_t size) { return gA.allocate(size, id); }
+	void Deallocate(void* ptr, size_t size) noexcept { gA.deallocate(ptr, size, id); }
+	bool IsEqual(const PlaceMM& o) const noexcept { return id == o.id; }
+	int id;     // identity: two managers with different ids are NOT interchangeable (Swap must move them with the pool data)
 };
 
 template<size_t BC, size_t CF> using Pool = MemPool<MemPoolParams<BC, CF>, PlaceMM, MemPoolSettings>;
@@ -360,7 +366,8 @@ template<class P> static std::string histCaseP(std::istringstream& is, bool trac
 	auto fail = [&](const std::string& s) { if (failure.empty()) failure = s + " (op #" + std::to_string(nOps) + ")"; };
 	{
 		typename P::Params params = MakeParams<P>::make(size_t(bs), size_t(al));
-		P pools[2] = { P(params), P(params) };
+		const bool unequalManagers = (endmode & 8) != 0;      // endmode bit 3: the two pools have different (non-interchangeable) managers
+		P pools[2] = { P(params, PlaceMM(unequalManagers ? 1 : 0)), P(params, PlaceMM(unequalManagers ? 2 : 0)) };
 		const size_t B = pools[0].GetBlockSize(), A = pools[0].GetBlockAlignment();
 		if (A != al) return "static-params-mismatch";
 		if (pools[0].GetBlockCount() != BC || pools[0].CanDeallocateAll() != (BC > 1) || pools[1].GetAllocateCount() != 0) return "FAIL getters";
@@ -371,6 +378,10 @@ template<class P> static std::string histCaseP(std::istringstream& is, bool trac
 			gA.gran = g;
 			ull p0 = (BC > 1) ? 2ull * B * BC : 2ull * A;
 			gA.period = p0 / std::__gcd<ull>(p0, 16) * 16;
+			std::string failStr; size_t ex = resStr.find('!');
+			if (ex != std::string::npos) { failStr = resStr.substr(ex + 1); resStr = resStr.substr(0, ex); }
+			{ std::istringstream fs(failStr); std::string t2; while (std::getline(fs, t2, ',')) if (!t2.empty()) gA.failAt.insert(size_t(std::stoull(t2))); }
+			gA.nAttempt = 0;
 			std::istringstream rs(resStr); std::string tok;
 			while (std::getline(rs, tok, ',')) gA.residues.push_back(std::stoull(tok) % gA.period / g * g);
 		}
@@ -400,7 +411,12 @@ template<class P> static std::string histCaseP(std::istringstream& is, bool trac
 		};
 		auto doAlloc = [&](int p) {
 			if (pools[p].pvUseCache() && pools[p].mCachedCount > 0) ++nCacheHit;     // (read-only observation)
-			void* blk = pools[p].Allocate();
+			void* blk;
+			try { blk = pools[p].Allocate(); }
+			catch (const std::bad_alloc&)
+			{	// the manager refused: Allocate must leave the pool exactly as it was (strong guarantee)
+				lastRet = "!"; checkLists(); verifyAll(); return;
+			}
 			uintptr_t a = reinterpret_cast<uintptr_t>(blk);
 			if (a % A != 0) fail("block not aligned to blockAlignment");
 			if (!gA.owns(a, B)) fail("block not inside memory obtained from the manager");
@@ -480,6 +496,7 @@ template<class P> static std::string histCaseP(std::istringstream& is, bool trac
 			{
 				int d = op[1] - '0', s = op[2] - '0';
 				if (d == s || d < 0 || d > 1 || s < 0 || s > 1) { fail("bad merge op"); break; }
+				if (unequalManagers) continue;    // MergeFrom requires equal managers (MOMO_CHECK)
 				++nMerge;
 				checkLists();
 				bool srcCacheEmpty = pools[s].mCachedCount == 0;   // otherwise MergeFrom's flush changes the lists before the surgery
@@ -509,8 +526,12 @@ template<class P> static std::string histCaseP(std::istringstream& is, bool trac
 		verifyAll(); checkLists();
 		if (failure.empty())
 		{
-			for (auto& lb : live[1]) live[0].push_back(lb);
-			if (!live[1].empty()) { pools[0].MergeFrom(pools[1]); live[1].clear(); checkLists(); }
+			if (unequalManagers) { while (!live[1].empty() && failure.empty()) { doFree(1, live[1].size() - 1); checkCounts(); } }   // no MergeFrom between different managers
+			else
+			{
+				for (auto& lb : live[1]) live[0].push_back(lb);
+				if (!live[1].empty()) { pools[0].MergeFrom(pools[1]); live[1].clear(); checkLists(); }
+			}
 			std::vector<LiveBlock>& L = live[0];
 			Sm64 rng{endmode * 977 + 5};
 			if (endmode % 4 == 1) std::reverse(L.begin(), L.end());
@@ -537,7 +558,7 @@ template<class P> static std::string histCaseP(std::istringstream& is, bool trac
 	std::ostringstream o;
 	if (!failure.empty()) o << "FAIL " << failure;
 	else o << "ok ops=" << nOps << " maxlive=" << maxLive << " buffers=" << gA.nAlloc << " maxbuffers=" << maxBuffers << " merges=" << nMerge << " mergesnt=" << nMergeNontrivial << " ifs=" << nIf
-		<< " freedif=" << nFreedIf << " alls=" << nAll << " swaps=" << nSwap << " moves=" << nMove << " flushes=" << nFlush << " cachehits=" << nCacheHit << " returned=" << gA.nDealloc;
+		<< " freedif=" << nFreedIf << " alls=" << nAll << " swaps=" << nSwap << " moves=" << nMove << " flushes=" << nFlush << " cachehits=" << nCacheHit << " returned=" << gA.nDealloc << " refused=" << gA.nRefused << " mgrs=" << ((endmode & 8) ? 2 : 1);
 	o << merges.str();
 	return o.str();
 }
@@ -575,12 +596,12 @@ template<class F> static std::string forked(F f)
 
 // ------------------------------------------------------------------ MemPoolUInt32 (the 32-bit-handle pool of MemPool.h) - oracle only
 // u32 BC blockSize maxTotal ops...    ops: a | f:<k> | x (DeallocateAll)
-template<size_t BC> static std::string u32Case(std::istringstream& is)
+template<size_t BC> static std::string u32Case(std::istringstream& is, bool trace = false)
 {
 	typedef internal::MemPoolUInt32<BC, PlaceMM> P;
 	ull bs, maxTotal; is >> bs >> maxTotal;
 	gA.reset();
-	std::string failure; size_t nOps = 0, refused = 0, maxLive = 0;
+	std::string failure, trc; size_t nOps = 0, refused = 0, maxLive = 0;
 	auto fail = [&](const std::string& s) { if (failure.empty()) failure = s + " (op #" + std::to_string(nOps) + ")"; };
 	{
 		PlaceMM mm; P pool{size_t(bs), std::move(mm), size_t(maxTotal)};
@@ -588,15 +609,31 @@ template<size_t BC> static std::string u32Case(std::istringstream& is)
 		std::vector<std::pair<uint32_t, ull>> live; std::map<uintptr_t, ull> all; ull serial = 0;
 		auto pattern = [&](ull ser, size_t i) { return uint8_t((ser * 131 + i * 7 + 17) & 0xFF); };
 		auto verify = [&](uintptr_t a, ull ser) { for (size_t i = 0; i < B; ++i) if (reinterpret_cast<uint8_t*>(a)[i] != pattern(ser, i)) return false; return true; };
-		std::string op;
+		std::string op; std::string lastRet;
+		// u32tr: after every op  <returned handle | E | ->/<mBlockHead>/<buffer count>/<mAllocCount>/<free-list length>#<hash of the handles in list order>
+		// (the free list is walked through the REAL memory: uint32 stored in each free block, starting at the private mBlockHead)
+		auto token = [&]() -> std::string {
+			size_t nbuf = pool.mBuffers.GetCount(); uint32_t h = pool.mBlockHead; size_t len = 0; uint32_t hash = 2166136261u;
+			while (h != P::nullPtr)
+			{
+				if (size_t(h) >= nbuf * BC) return lastRet + "/BROKEN(free handle " + std::to_string(h) + " out of range)";
+				if (++len > nbuf * BC) return lastRet + "/CYCLE";
+				hash = (hash * 16777619u) ^ h;
+				uint32_t nx; std::memcpy(&nx, pool.template GetRealPointer<void>(h), sizeof nx); h = nx;
+			}
+			return lastRet + "/" + std::to_string(pool.mBlockHead) + "/" + std::to_string(nbuf) + "/" + std::to_string(pool.mAllocCount) + "/" + std::to_string(len) + "#" + std::to_string(hash);
+		};
 		while (failure.empty() && (is >> op))
 		{
 			++nOps;
+			if (nOps > 1 && trace) trc += token() + " ";
+			lastRet = "-";
 			if (op[0] == 'a')
 			{
 				uint32_t h;
 				try { h = pool.Allocate(); }
-				catch (const std::length_error&) { ++refused; if (live.size() + BC <= maxTotal / BC * BC) fail("Allocate refused below maxTotalBlockCount"); continue; }
+				catch (const std::length_error&) { ++refused; lastRet = "E"; if (live.size() + BC <= maxTotal / BC * BC) fail("Allocate refused below maxTotalBlockCount"); continue; }
+				lastRet = std::to_string(h);
 				if (h == P::nullPtr) fail("Allocate returned the null handle");
 				for (auto& lv : live) if (lv.first == h) fail("handle handed out twice");
 				uintptr_t a = reinterpret_cast<uintptr_t>(pool.template GetRealPointer<void>(h));
@@ -623,6 +660,7 @@ template<size_t BC> static std::string u32Case(std::istringstream& is)
 				if (!gA.owns(reinterpret_cast<uintptr_t>(pool.template GetRealPointer<void>(lv.first)), B)) fail("a live block is no longer inside owned memory");
 			if (!gA.error.empty()) fail(gA.error);
 		}
+		if (nOps > 0 && trace && failure.empty()) trc += token();
 		for (auto& kv : all) if (failure.empty() && !verify(kv.first, kv.second)) fail("bytes written into a live block were overwritten by the pool");
 		while (failure.empty() && !live.empty()) { pool.Deallocate(live.back().first); live.pop_back(); }
 		if (!failure.empty()) { pool.mAllocCount = 0; }
@@ -630,6 +668,7 @@ template<size_t BC> static std::string u32Case(std::istringstream& is)
 	if (failure.empty() && !gA.live.empty()) failure = "memory not returned: " + std::to_string(gA.live.size()) + " manager block(s) still owned after the pool was destroyed";
 	if (failure.empty() && !gA.error.empty()) failure = gA.error;
 	if (!failure.empty()) return "FAIL " + failure;
+	if (trace) return trc;
 	return "ok ops=" + std::to_string(nOps) + " maxlive=" + std::to_string(maxLive) + " refused=" + std::to_string(refused) + " mgrallocs=" + std::to_string(gA.nAlloc);
 }
 
@@ -724,6 +763,23 @@ int main()
 			if (cmd == "ceil") { ull v, m; is >> v >> m; out = std::to_string(ull(internal::UIntMath<size_t>::Ceil(size_t(v), size_t(m)))); }
 			else if (cmd == "cbs") { ull bs, al, bc; is >> bs >> al >> bc; out = std::to_string(ull(MemPoolConst::CorrectBlockSize(size_t(bs), size_t(al), size_t(bc)))); }
 			else if (cmd == "chk") { ull bc, al; is >> bc >> al; out = std::to_string(int(MemPoolConst::CheckBlockCount(size_t(bc)))) + " " + std::to_string(int(MemPoolConst::CheckBlockAlignment(size_t(al)))); }
+			else if (cmd == "dswap")		// MemPool::Data::Swap on two Data objects whose managers have the given identities
+			{
+				long long m, a, dm, da; is >> m >> a >> dm >> da;
+				typedef Pool<2, 0> P;
+				P::Data d1{PlaceMM(int(m))}; d1.allocCount = size_t(a);
+				P::Data d2{PlaceMM(int(dm))}; d2.allocCount = size_t(da);
+				d1.Swap(d2);
+				out = std::to_string(d1.id) + " " + std::to_string(d1.allocCount) + " " + std::to_string(d2.id) + " " + std::to_string(d2.allocCount);
+			}
+			else if (cmd == "gba") { ull bs, ma; is >> bs >> ma; out = std::to_string(ull(MemPoolConst::GetBlockAlignment(size_t(bs), size_t(ma)))); }
+			else if (cmd == "gbp")		// MemPoolParams<>(blockSize): the default alignment is GetBlockAlignment(blockSize) with the default maxAlignment
+			{
+				ull bs; is >> bs;
+				MemPoolParams<> params{size_t(bs)};
+				out = std::to_string(ull(internal::UIntConst::maxAlignment)) + " " + std::to_string(ull(MemPoolParams<>::blockCount)) + " "
+					+ std::to_string(ull(MemPoolConst::GetBlockAlignment(size_t(bs)))) + " " + std::to_string(ull(params.GetBlockAlignment())) + " " + std::to_string(ull(params.GetBlockSize()));
+			}
 			else if (cmd == "ar" || cmd == "gb" || cmd == "gi" || cmd == "pos" || cmd == "nb1" || cmd == "nbuf" || cmd == "al1")
 			{
 				ull bc, cf; is >> bc >> cf;
@@ -755,6 +811,11 @@ int main()
 			{
 				ull bc; is >> bc;
 				out = forked([&] { return bc == 1 ? u32Case<1>(is) : bc == 2 ? u32Case<2>(is) : bc == 16 ? u32Case<16>(is) : bc == 32 ? u32Case<32>(is) : std::string("?"); });
+			}
+			else if (cmd == "u32tr")
+			{
+				ull bc; is >> bc;
+				out = forked([&] { return bc == 1 ? u32Case<1>(is, true) : bc == 2 ? u32Case<2>(is, true) : bc == 16 ? u32Case<16>(is, true) : bc == 32 ? u32Case<32>(is, true) : std::string("?"); });
 			}
 			else if (cmd == "u32gp" || cmd == "u32nb")
 			{
